@@ -71,12 +71,19 @@ class Ctx:
     def count(self, rule: str) -> int:
         return sum(1 for ob in self.obs if ob.rule == rule)
 
+    @staticmethod
+    def minimum(floor: int) -> int:
+        """ instances required on the tree under analysis: the hand-confirmed count less a quarter (at least one)
+            so that a refactoring which merges or removes a few sites is not reported as an analysis failure,
+            while a rule that lost most of its anchors still fails closed """
+        return floor if floor < 3 else floor - max(1, floor // 4)
+
     def finish(self) -> None:
         for rule, floor in self.floors.items():
             have = self.count(rule)
-            if have < floor:
-                raise AnalysisError(f"rule {rule} matched {have} instance(s), fewer than the {floor} "
-                                    f"confirmed by hand: the rule would pass vacuously")
+            if have < self.minimum(floor):
+                raise AnalysisError(f"rule {rule} matched {have} instance(s), fewer than the minimum {self.minimum(floor)} "
+                                    f"({floor} confirmed by hand on the reference tree): the rule would pass vacuously")
         cannot = [ob for ob in self.obs if ob.status == "cannot"]
         if cannot:
             first = cannot[0]
